@@ -1,6 +1,9 @@
 import AtreeModel.Commit
 import AtreeProofs.StorageLemmas
 import AtreeProofs.CommitLemmas
+import AtreeProofs.StorageLemmas2
+import AtreeProofs.PoolLemmas
+import AtreeProofs.StorageExample2
 /-
   C16 — Parallel commit/preload are sequential-equal (the part that is logic: the message-passing
   model of the worker pools).  Data races in the Go memory model, real preemption and sync.Pool
@@ -14,7 +17,7 @@ open Atree St Pool
 theorem pool_results_perm {ι ρ : Type} (f : ι → ρ) (jobs : List ι) (workers : Nat) (sched : List Nat)
     (hfin : finished (runSchedule f (initState jobs workers) sched) = true) :
     (runSchedule f (initState jobs workers) sched).results.Perm (jobs.map (fun j => (j, f j))) := by
-  sorry
+  exact pinv_finished f jobs _ (pinv_run f jobs sched _ (pinv_init f jobs workers)) hfin
 
 /-- At every moment of every schedule, the number of buffered results never exceeds the number of
     jobs (so a send on the result channel, whose capacity is the job count, never blocks), and no
@@ -22,13 +25,13 @@ theorem pool_results_perm {ι ρ : Type} (f : ι → ρ) (jobs : List ι) (worke
 theorem pool_results_bounded {ι ρ : Type} (f : ι → ρ) (jobs : List ι) (workers : Nat) (sched : List Nat) :
     let s := runSchedule f (initState jobs workers) sched
     s.results.length + (s.holding.filter (·.isSome)).length + s.queue.length = jobs.length := by
-  sorry
+  exact pinv_count f jobs _ (pinv_run f jobs sched _ (pinv_init f jobs workers))
 
 /-- The pool finishes under the round-robin schedule for any worker count ≥ 1 (termination and
     drainage are possible under a fair scheduler). -/
 theorem pool_terminates {ι ρ : Type} (f : ι → ρ) (jobs : List ι) (workers : Nat) (hw : 1 ≤ workers) :
     finished (runSchedule f (initState jobs workers) (roundRobin workers jobs.length)) = true := by
-  sorry
+  exact roundRobin_finishes f jobs workers hw
 
 variable {σ β : Type} (c : Codec σ β)
 
@@ -41,7 +44,11 @@ theorem parallel_commit_sequential_equal (s : St σ β) (h : Inv c s) (fault : N
     let r := s.fastCommitPool c fault workers sched
     let r0 := s.fastCommit c fault
     r.st = r0.st ∧ r.err = r0.err ∧ r.log = r0.log := by
-  sorry
+  intro r r0
+  have _ := hw   -- (the worker count is clamped to the job count; `1 ≤ workers` is not needed)
+  have : r = r0 := fastCommitPool_eq c fault s h.deltasNodup workers sched hfin
+  rw [this]
+  exact ⟨rfl, rfl, rfl⟩
 
 /-- Preloading in parallel: for every arrival order of the decoded slabs (a permutation of the
     requested identifiers, which are distinct), the resulting cache and view are those of the
@@ -53,6 +60,96 @@ theorem parallel_preload_sequential_equal (hc : RoundTrip c) (s : St σ β) (h :
     (s.batchPreload c ids).2 = none ∧
     (∀ id, AList.find? p.cache id = AList.find? q.cache id) ∧
     p.deltas = q.deltas ∧ p.base = q.base ∧ (∀ id, p.view c id = s.view c id) := by
-  sorry
+  intro p q
+  have _ := hc
+  have _ := hnd  -- (re-caching an identifier is idempotent; distinctness is not needed)
+  have hq : s.batchPreload c ids = (ids.foldl (cacheDecoded c) s, none) :=
+    batchPreload_eq c ids s h.baseDecodes
+  have hq' : q = ids.foldl (cacheDecoded c) s := by show (s.batchPreload c ids).1 = _; rw [hq]
+  have hp : p = arrival.foldl (cacheDecoded c) s := preloadArrival_eq c s arrival
+  obtain ⟨p1, p2, p3⟩ := cacheDecoded_fold c arrival s
+  obtain ⟨q1, q2, q3⟩ := cacheDecoded_fold c ids s
+  refine ⟨by rw [hq], ?_, ?_, ?_, ?_⟩
+  · intro id
+    rw [hp, hq', p3 id, q3 id]
+    simp only [hperm.mem_iff]
+  · rw [hp, hq', p2, q2]
+  · rw [hp, hq', p1, q1]
+  · rw [hp]
+    exact (cacheDecoded_fold_inv c arrival s h).2
+
+/-! ### Non-vacuity
+
+The pool theorems are evaluated on a 3-worker pool with 4 jobs under an interleaved schedule; the
+commit and preload theorems are instantiated on `Example.poolSt` / `Example.exSt`. -/
+section NonVacuity
+open Atree.Example
+
+/-- 3 workers, jobs `10, 20, 30, 40`, `f = (· + 1)`, the interleaved schedule `poolSched`: the pool
+    finishes, results arrive out of order, nothing is lost or duplicated. -/
+example :
+    let s := runSchedule (fun n : Nat => n + 1) (initState [10, 20, 30, 40] 3) poolSched
+    finished s = true ∧ s.results = [(30, 31), (10, 11), (40, 41), (20, 21)] := by decide
+example := pool_results_perm (fun n : Nat => n + 1) [10, 20, 30, 40] 3 poolSched (by decide)
+
+/-- In the middle of the schedule: one result buffered, two jobs held, one queued. -/
+example :
+    let s := runSchedule (fun n : Nat => n + 1) (initState [10, 20, 30, 40] 3) [0, 1, 2, 2]
+    finished s = false ∧ s.results.length = 1 ∧ (s.holding.filter (·.isSome)).length = 2 ∧
+    s.queue.length = 1 := by decide
+
+/-- `finished` is a real hypothesis of `pool_results_perm` (an unfinished pool has fewer results),
+    and `1 ≤ workers` a real hypothesis of `pool_terminates` (no workers, no progress). -/
+example : (runSchedule (fun n : Nat => n + 1) (initState [10, 20, 30, 40] 3) [0, 1, 2, 2]).results
+    = [(30, 31)] := by decide
+example : finished (runSchedule (fun n : Nat => n + 1) (initState [10] 0) (roundRobin 0 1)) = false := by
+  decide
+example : finished (runSchedule (fun n : Nat => n + 1) (initState [10, 20, 30, 40] 3) (roundRobin 3 4))
+    = true := by decide
+
+/-- `parallel_commit_sequential_equal` on `poolSt` (four owned pending identifiers, 3 workers, the
+    interleaved schedule; encoder results arrive as `1.5, 1.1, 2.1, 1.2`), with and without a
+    failing base-storage call. -/
+example : RoundTrip natCodec ∧ Inv natCodec poolSt := ⟨roundTrip, poolInv⟩
+example :
+    finished (runSchedule (encodeJob natCodec poolSt)
+      (initState (sortedOwnedDeltaKeys poolSt) (min 3 (sortedOwnedDeltaKeys poolSt).length)) poolSched) = true := by
+  decide
+example :
+    let r := poolSt.fastCommitPool natCodec (faultPlan [2]) 3 poolSched
+    let r0 := poolSt.fastCommit natCodec (faultPlan [2])
+    r.st.base = r0.st.base ∧ r.st.deltas = r0.st.deltas ∧ r.st.cache = r0.st.cache ∧
+    r.err = r0.err ∧ r.log.map callRepr = r0.log.map callRepr ∧ r0.err = some .external ∧
+    r0.log.map callRepr = [(⟨1, 1⟩, some 5), (⟨1, 2⟩, none), (⟨1, 5⟩, some 2)] := by decide
+example := parallel_commit_sequential_equal natCodec poolSt poolInv (fun _ => false) 3 (by decide)
+  poolSched (by decide)
+
+/-- An encoding failure is reported before anything is written, under the pool as sequentially. -/
+example :
+    let cBad : Codec Nat Nat := { natCodec with enc := fun v => if v = 2 then none else some v }
+    let r := poolSt.fastCommitPool cBad (fun _ => false) 3 poolSched
+    let r0 := poolSt.fastCommit cBad (fun _ => false)
+    r.err = some .encoding ∧ r0.err = some .encoding ∧ r.log.length = 0 ∧ r0.log.length = 0 ∧
+    r.st.base = poolSt.base := by decide
+
+theorem arrivalPerm : ([⟨1, 3⟩, ⟨1, 2⟩, ⟨1, 9⟩, ⟨1, 4⟩] : List SlabID).Perm [⟨1, 4⟩, ⟨1, 9⟩, ⟨1, 2⟩, ⟨1, 3⟩] :=
+  List.reverse_perm ([⟨1, 4⟩, ⟨1, 9⟩, ⟨1, 2⟩, ⟨1, 3⟩] : List SlabID)
+
+/-- `parallel_preload_sequential_equal` on `exSt` (registers `1.4, 1.3, 1.2`; `1.9` is absent):
+    arrival order reversed. -/
+example :
+    let ids : List SlabID := [⟨1, 4⟩, ⟨1, 9⟩, ⟨1, 2⟩, ⟨1, 3⟩]
+    let arrival : List SlabID := [⟨1, 3⟩, ⟨1, 2⟩, ⟨1, 9⟩, ⟨1, 4⟩]
+    ids.Nodup ∧ arrival.Perm ids ∧
+    (exSt.preloadArrival natCodec arrival).cache ≠ (exSt.batchPreload natCodec ids).1.cache ∧
+    AList.find? (exSt.preloadArrival natCodec arrival).cache ⟨1, 4⟩ = some (some 9) ∧
+    AList.find? (exSt.batchPreload natCodec ids).1.cache ⟨1, 4⟩ = some (some 9) ∧
+    AList.find? (exSt.batchPreload natCodec ids).1.cache ⟨1, 9⟩ = none := by
+  exact ⟨by decide, arrivalPerm, by decide, by decide, by decide, by decide⟩
+example := parallel_preload_sequential_equal natCodec roundTrip exSt inv
+  [⟨1, 4⟩, ⟨1, 9⟩, ⟨1, 2⟩, ⟨1, 3⟩] [⟨1, 3⟩, ⟨1, 2⟩, ⟨1, 9⟩, ⟨1, 4⟩] (by decide)
+  arrivalPerm
+
+end NonVacuity
 
 end Atree.C16
